@@ -1216,8 +1216,12 @@ class UTPM(Ring, RawAlgorithmsMixIn):
             raise NotImplementedError('not implemented yet')
 
         if axis is None:
-            tmp = numpy.prod(self.data.shape[2:])
+            tmp = int(numpy.prod(self.data.shape[2:]))
             return UTPM(numpy.sum(self.data.reshape(self.data.shape[:2] + (tmp,)), axis = 2))
+        elif isinstance(axis, tuple):
+            # several axes at once, each shifted past the (D,P) axes
+            a = tuple(self.data.ndim + ai if ai < 0 else ai + 2 for ai in axis)
+            return UTPM(numpy.sum(self.data, axis = a))
         else:
             if axis < 0:
                 a = self.data.ndim + axis
@@ -1242,14 +1246,15 @@ class UTPM(Ring, RawAlgorithmsMixIn):
 
         else:
 
-            if axis < 0:
-                a = x.data.ndim + axis
-
-            else:
-                a = axis + 2
-
             shp = list(x.data.shape)
-            shp[a] = 1
+            for ai in (axis if isinstance(axis, tuple) else (axis,)):
+                if ai < 0:
+                    a = x.data.ndim + ai
+
+                else:
+                    a = ai + 2
+
+                shp[a] = 1
             tmp = ybar.data.reshape(shp)
             xbar.data += tmp
 
